@@ -155,9 +155,35 @@ def _conf_pool(slot):
 CONF_POOLS = {s[0]: _conf_pool(s[0]) for s in CONF_SLOTS}
 
 
+def _hand_specs():
+    """hand-written conformant problems with THREE nullary action schemas over the same fluents:
+    a uniformly known literal is lost through a conditional effect on an unknown fluent, regained
+    through another one, and then needed (all polarity variants of the unknown / the literal)."""
+    out = []
+    for u_name, u in (("b", b), ("not b", NOT(b))):
+        for lost_val in (FALSE, TRUE):  # the literal p(s1) / not p(s1)
+            keep_val = TRUE if lost_val == FALSE else FALSE
+            need = p(s1) if keep_val == TRUE else NOT(p(s1))
+            for forced in (True, False):
+                acts = (
+                    {"name": "lose", "params": (), "pre": (), "eff": (eff(q(s1), TRUE), eff(p(s1), lost_val, u))},
+                    {"name": "regain", "params": (), "pre": (), "eff": (eff(p(s1), keep_val, u),)},
+                    {"name": "use", "params": (), "pre": (need,) + ((q(s1),) if forced else ()), "eff": (eff(p(o1), TRUE),)},
+                )
+                ps = {
+                    "name": "uconf-hand", "types": (("T", None), ("S", "T")), "objects": (("o1", "T"), ("s1", "S")),
+                    "fluents": (("b", B, (), FALSE), ("p", B, (("o", T),), FALSE), ("q", B, (("o", S),), FALSE)),
+                    "actions": acts, "init": (), "goals": (p(o1),), "traj": (), "metric": None,
+                }
+                out.append(("hand:lose-regain/%s/%s/%s" % (u_name, "p" if keep_val == TRUE else "not-p", "forced" if forced else "free"), ps))
+    return out
+
+
 def conf_make(choices):
     """choices: dict slot -> pool index -> problem spec (initial values are placeholders:
     every ground fluent false; the possible initial states are supplied separately)."""
+    if "hand" in choices:
+        return dict(HAND[choices["hand"]][1])
     ch = {s: CONF_POOLS[s][i][0] for s, i in choices.items()}
     acts = []
     for ai, (an, params, X) in enumerate(CONF_ACTIONS):
@@ -592,3 +618,6 @@ def cont_case_ids(tier):
             if cont_make(dict(cid)) is not None:
                 out.append((level, cid))
     return out
+
+
+HAND = _hand_specs()
